@@ -96,7 +96,7 @@ Lemma isd_set_done e : isd (set_done cache_done_value e) = true. Proof. apply is
 Ltac isdsimp := rewrite ?isd_set_present, ?isd_set_locked, ?isd_set_result, ?isd_inc_fbegins, ?isd_inc_fends, ?isd_set_done in *.
 
 Section Proofs.
-Variable fval : nat -> nat.
+Variable fval : nat -> option nat.
 Variable deps : nat -> list nat.
 Variable progs : list (list call).
 
@@ -131,7 +131,7 @@ Inductive stepC (s : cstate) (t : nat) (th : thr) : cstate -> Prop :=
 | S_fret k j : tpc th = DInF k j -> nth_error (deps k) j = None ->
     stepC s t th (mkC (set_nth t (goto th (DWrite k (fval k))) (thrs s)) (upd k (inc_fends (ents s k)) (ents s)) (plain s))
 | S_write k v : tpc th = DWrite k v ->
-    stepC s t th (mkC (set_nth t (goto th (DStore k)) (thrs s)) (upd k (set_result (Some v) (ents s k)) (ents s))
+    stepC s t th (mkC (set_nth t (goto th (DStore k)) (thrs s)) (upd k (set_result v (ents s k)) (ents s))
                       ((t, k, true) :: plain s))
 | S_store k : tpc th = DStore k ->
     stepC s t th (mkC (set_nth t (goto th (DUnlock k)) (thrs s)) (upd k (set_done cache_done_value (ents s k)) (ents s)) (plain s))
@@ -252,11 +252,11 @@ Definition pc_ok (e : nat -> entry) (p : cpc) : Prop :=
   end.
 Definition ret_ok (e : nat -> entry) (cv : call * option nat) : Prop :=
   match cv with
-  | (CDo k, v) => v = Some (fval k) /\ isd (e k) = true
-  | (CGet k, v) => v = None \/ (v = Some (fval k) /\ isd (e k) = true)
+  | (CDo k, v) => v = fval k /\ isd (e k) = true
+  | (CGet k, v) => v = None \/ (v = fval k /\ isd (e k) = true)
   end.
 Definition nret_ok (e : nat -> entry) (kv : nat * option nat) : Prop :=
-  snd kv = Some (fval (fst kv)) /\ isd (e (fst kv)) = true.
+  snd kv = fval (fst kv) /\ isd (e (fst kv)) = true.
 (* a suspended frame (k, j): the nested calls before the current one (index j-1) have completed *)
 Definition frame_ok (e : nat -> entry) (f : nat * nat) : Prop :=
   forall m d, S m < snd f -> nth_error (deps (fst f)) m = Some d -> isd (e d) = true.
@@ -284,7 +284,7 @@ Record thr_ok (e : nat -> entry) (th : thr) : Prop := {
 }.
 
 Record InvB (s : cstate) : Prop := {
-  b_res : forall k, (0 < C (is_st k) (thrs s) \/ isd (ents s k) = true) -> result (ents s k) = Some (fval k);
+  b_res : forall k, (0 < C (is_st k) (thrs s) \/ isd (ents s k) = true) -> result (ents s k) = fval k;
   b_deps : forall k, isd (ents s k) = true -> deps_done (ents s) k;
   b_thr : Forall (thr_ok (ents s)) (thrs s)
 }.
@@ -590,7 +590,73 @@ Proof.
   intros p. unfold calls_of; simpl. apply start_cur.
 Qed.
 
+(* ---- group Q: entries that are in use have been stored in the map *)
+Definition past_store (k : nat) (p : cpc) : bool :=
+  match p with
+  | DLoad1 k' | DLock k' | DLoad2 k' | DCall k' | DInF k' _ | DWrite k' _ | DStore k' | DUnlock k' | DRead k'
+  | GLoad1 k' | GRead k' => Nat.eqb k' k
+  | _ => false
+  end.
+Definition thr_present (e : nat -> entry) (th : thr) : Prop :=
+  (forall k, past_store k (tpc th) = true -> present (e k) = true) /\
+  Forall (fun f : nat * nat => present (e (fst f)) = true) (stack th).
+Record InvQ (s : cstate) : Prop := {
+  q_thr : Forall (thr_present (ents s)) (thrs s);
+  q_done : forall k, isd (ents s k) = true -> present (ents s k) = true
+}.
+
+Lemma init_InvQ : InvQ init.
+Proof.
+  constructor.
+  - unfold cinit; cbn [thrs ents]. apply Forall_forall. intros th Hth. apply in_map_iff in Hth as (p & <- & _).
+    split; simpl; auto. intros k. destruct p as [|[] r]; simpl; discriminate.
+  - intros k H; discriminate.
+Qed.
+
+Lemma past_store_start l k : past_store k (fst (start l)) = false.
+Proof. destruct l as [|[] r]; reflexivity. Qed.
+
+Lemma step_InvQ s t th s' : InvQ s -> nth_error (thrs s) t = Some th -> stepC s t th s' -> InvQ s'.
+Proof.
+  intros [Hthr Hdone] Hnth HS.
+  assert (Hmono : forall k, present (ents s k) = true -> present (ents s' k) = true).
+  { destruct HS; cbn [ents]; auto; intros k' Hk'; unfold upd; destruct (Nat.eqb_spec k k') as [->|]; simpl; auto. }
+  pose proof (Forall_nth_error _ _ _ _ Hthr Hnth) as [Hpc Hfr].
+  assert (Hold : forall th', thr_present (ents s') th' -> Forall (thr_present (ents s')) (set_nth t th' (thrs s))).
+  { intros th' H'. apply Forall_set_nth; auto. eapply Forall_impl; [|exact Hthr].
+    intros x [H1 H2]; split; [intros k Hk; auto|]. eapply Forall_impl; [|exact H2]. simpl; auto. }
+  assert (Hfr' : Forall (fun f : nat * nat => present (ents s' (fst f)) = true) (stack th)).
+  { eapply Forall_impl; [|exact Hfr]. simpl; auto. }
+  assert (Hd : (forall k, isd (ents s' k) = isd (ents s k)) -> forall k, isd (ents s' k) = true -> present (ents s' k) = true).
+  { intros Hi k Hk. rewrite Hi in Hk. auto. }
+  destruct HS as [k0 Hp E|k0 Hp E|k0 Hp|k0 Hp E|k0 Hp E|k0 Hp E|k0 Hp E|k0 Hp E|k0 Hp|k0 j0 Hp E|k0 v Hp|k0 Hp|k0 Hp|k0 Hp E0
+                 |k0 Hp E|k0 Hp E|k0 Hp E|k0 Hp E|k0 Hp|k0 j0 d0 Hp E|k0 k1 j1 st1 Hp E];
+    cbn [ents thrs plain] in *; rewrite Hp in Hpc; constructor; cbn [ents thrs];
+    try (apply Hd; intros k; try unfold upd; try (destruct (Nat.eqb_spec k0 k) as [->|]); reflexivity);
+    try (apply Hold; split; cbn [goto ret push tpc stack]; auto;
+         intros k Hk; simpl in Hk; rewrite ?past_store_start in Hk; try discriminate;
+         apply Nat.eqb_eq in Hk; subst k; try (unfold upd; rewrite Nat.eqb_refl; simpl); auto;
+         try (apply Hmono); try (apply Hpc; simpl; apply Nat.eqb_refl); fail).
+  - (* store *)
+    intros k Hk. unfold upd in *. destruct (Nat.eqb_spec k0 k) as [->|]; simpl; auto.
+    apply Hpc. simpl. apply Nat.eqb_refl.
+  - (* push *)
+    apply Hold; split; cbn [push tpc stack].
+    + intros k Hk; simpl in Hk; discriminate.
+    + constructor; auto. simpl. apply Hpc. simpl. apply Nat.eqb_refl.
+  - (* pop *)
+    rewrite E in Hfr'. inversion Hfr' as [|f fs Hf Hfs]; subst.
+    apply Hold; split; cbn [tpc stack]; auto.
+    intros k Hk; simpl in Hk. apply Nat.eqb_eq in Hk; subst k. exact Hf.
+Qed.
+
 (* ---- all invariants on reachable states *)
+Lemma creachable_InvQ s : creachable s -> InvQ s.
+Proof.
+  induction 1 as [|s t s' Hr IH Hs]; [apply init_InvQ|].
+  apply cstep_inv in Hs as (th & Hnth & HS). eapply step_InvQ; eauto.
+Qed.
+
 Lemma creachable_inv s : creachable s -> InvA s /\ InvB s /\ InvP s /\ map calls_of (thrs s) = progs.
 Proof.
   induction 1 as [|s t s' Hr (HA & HB & HP & HD) Hs].
@@ -638,7 +704,7 @@ Qed.
 (* every finished Do(k) returned the value of the one call of f_k, and that call had completed *)
 Theorem do_returns_f_value s t th k v : creachable s -> nth_error (thrs s) t = Some th ->
   In (CDo k, v) (rets th) ->
-  v = Some (fval k) /\ fbegins (ents s k) = 1 /\ fends (ents s k) = 1 /\ result (ents s k) = Some (fval k).
+  v = fval k /\ fbegins (ents s k) = 1 /\ fends (ents s k) = 1 /\ result (ents s k) = fval k.
 Proof.
   intros Hr Hn Hin. destruct (creachable_inv s Hr) as (HA & HB & _).
   pose proof (Forall_nth_error _ _ _ _ (b_thr _ HB) Hn) as [_ Hrets].
@@ -648,7 +714,7 @@ Qed.
 
 (* a Do(k) that is about to return (only the plain read of e.result is left) returns after f_k completed *)
 Theorem do_after_f s t th k : creachable s -> nth_error (thrs s) t = Some th -> tpc th = DRead k ->
-  fends (ents s k) = 1 /\ result (ents s k) = Some (fval k) /\ C (is_inf k) (thrs s) = 0.
+  fends (ents s k) = 1 /\ result (ents s k) = fval k /\ C (is_inf k) (thrs s) = 0.
 Proof.
   intros Hr Hn Hp. destruct (creachable_inv s Hr) as (HA & HB & _).
   pose proof (Forall_nth_error _ _ _ _ (b_thr _ HB) Hn) as [Hpc _]. rewrite Hp in Hpc. simpl in Hpc.
@@ -659,7 +725,7 @@ Qed.
 (* every finished Get(k) returned nil or the value of the completed call of f_k *)
 Theorem get_nil_or_value s t th k v : creachable s -> nth_error (thrs s) t = Some th ->
   In (CGet k, v) (rets th) ->
-  v = None \/ (v = Some (fval k) /\ fends (ents s k) = 1).
+  v = None \/ (v = fval k /\ fends (ents s k) = 1).
 Proof.
   intros Hr Hn Hin. destruct (creachable_inv s Hr) as (HA & HB & _).
   pose proof (Forall_nth_error _ _ _ _ (b_thr _ HB) Hn) as [_ Hrets].
@@ -675,6 +741,29 @@ Proof.
   - destruct (present (ents s k)); eauto.
   - destruct (isd (ents s k)); eauto.
   - eauto.
+Qed.
+
+(* once computed, always computed *)
+Theorem done_stable s t s' k : creachable s -> cstep s t = Some s' -> isd (ents s k) = true -> isd (ents s' k) = true.
+Proof.
+  intros Hr Hs Hk. destruct (creachable_inv s Hr) as (HA & _).
+  apply cstep_inv in Hs as (th & Hnth & HS). exact (step_mono _ _ _ _ HA Hnth HS k Hk).
+Qed.
+
+(* nil from Get means "not computed yet": once e.done is set for k (in particular after any Do(k) has
+   returned), every step of a Get(k) goes straight on -- Load hits, the done test succeeds, the plain
+   read returns f's value -- whatever the other threads do in between (done_stable) *)
+Theorem get_after_done s t th k : creachable s -> isd (ents s k) = true -> nth_error (thrs s) t = Some th ->
+  (tpc th = GLoad k -> cstep s t = Some (mkC (set_nth t (goto th (GLoad1 k)) (thrs s)) (ents s) (plain s))) /\
+  (tpc th = GLoad1 k -> cstep s t = Some (mkC (set_nth t (goto th (GRead k)) (thrs s)) (ents s) (plain s))) /\
+  (tpc th = GRead k ->
+     cstep s t = Some (mkC (set_nth t (ret th (CGet k) (fval k)) (thrs s)) (ents s) ((t, k, false) :: plain s))).
+Proof.
+  intros Hr Hk Hn. destruct (creachable_inv s Hr) as (HA & HB & _). pose proof (creachable_InvQ s Hr) as HQ.
+  unfold ParNest.cstep. rewrite Hn. repeat split; intros Hp; rewrite Hp.
+  - rewrite (q_done _ HQ k Hk). reflexivity.
+  - rewrite Hk. reflexivity.
+  - rewrite (b_res _ HB k (or_intror Hk)). reflexivity.
 Qed.
 
 (* no data race on e.result: a pending plain write is never concurrent with another thread's
@@ -705,7 +794,7 @@ Qed.
 (* when every thread has finished its program: f_k ran exactly once for every key some Do asked for *)
 Theorem f_exactly_once_at_end s : creachable s -> all_idle s = true ->
   forall p k, In p progs -> In (CDo k) p ->
-  fbegins (ents s k) = 1 /\ fends (ents s k) = 1 /\ result (ents s k) = Some (fval k).
+  fbegins (ents s k) = 1 /\ fends (ents s k) = 1 /\ result (ents s k) = fval k.
 Proof.
   intros Hr Hidle p k Hp Hk.
   destruct (creachable_inv s Hr) as (HA & HB & _ & HD).
@@ -844,6 +933,9 @@ Notation tweight := (tweight deps kc).
 Notation rank := (rank deps kc).
 Notation nested := (nested deps kc).
 
+Lemma list_sum_cons' a l : list_sum (a :: l) = a + list_sum l.
+Proof. reflexivity. Qed.
+
 Lemma nested_step k j d : nth_error (deps k) j = Some d -> nested k j = S (kc d) + nested k (S j).
 Proof.
   unfold ParNest.nested. intros H.
@@ -866,7 +958,8 @@ Proof.
   - simpl. lia.
   - pose proof (rank_start_lt (c0 :: r) c0 r eq_refl) as Hlt.
     assert (Hsnd : snd (start (c0 :: r)) = r) by (destruct c0; reflexivity).
-    rewrite Hsnd. cbn [map list_sum fold_right] in *. lia.
+    rewrite Hsnd. cbn [map]. rewrite !list_sum_cons'.
+    generalize dependent (rank (fst (start (c0 :: r)))). intros a Hlt. lia.
 Qed.
 
 (* every step consumes the measure: no schedule is infinite (f_k is assumed to return once its
@@ -884,9 +977,9 @@ Proof.
     unfold ParNest.tweight; cbn [goto push tpc stack rest]; rewrite Hp; cbn [ParNest.rank].
   all: try lia.
   - (* nested call *)
-    rewrite (nested_step _ _ _ E). cbn [map list_sum fold_right frame_cost fst snd]. pose proof (kc_ok d0). lia.
+    rewrite (nested_step _ _ _ E). cbn [map]. rewrite list_sum_cons'. change (frame_cost deps kc (k0, S j0)) with (6 + nested k0 (S j0)). pose proof (kc_ok d0). lia.
   - (* nested return *)
-    rewrite E. cbn [map list_sum fold_right frame_cost fst snd]. lia.
+    rewrite E. cbn [map]. rewrite list_sum_cons'. change (frame_cost deps kc (k1, j1)) with (6 + nested k1 j1). lia.
 Qed.
 
 Theorem cache_terminates sch : forall s s', crun sch s = Some s' -> length sch + psi s' <= psi s.
